@@ -659,6 +659,41 @@ val commit_in_order :
 
 val ms_init : bytes list -> prune -> mstore
 
+type pkey =
+| PK of n
+| PMulti of pkey list
+
+type sg =
+| SPlain of n * n
+| SMulti of sg list
+| SGarbage
+
+val verify : pkey -> n -> sg -> bool
+
+type armor = n * bytes
+
+val unarmor : armor -> bytes -> n option
+
+val addr_of : n -> bytes
+
+type kb = armor amap
+
+type kres =
+| KOk
+| KErr
+| KSig of sg
+| KArmor of armor
+
+type kop =
+| KCreate of n * bytes
+| KImport of armor * bytes * bytes
+| KUpdate of bytes * bytes * bytes
+| KDelete of bytes * bytes
+| KSign of bytes * bytes * n
+| KExport of bytes * bytes * bytes
+
+val kstep : kb -> kop -> kb * kres
+
 val be_bytes : nat -> z -> bytes
 
 val le_bytes : nat -> z -> bytes
